@@ -1,5 +1,6 @@
 import PoolProofs.C19Lemmas
 import PoolProofs.C19LemmasRpc
+import PoolProofs.C19LemmasStr
 /-! # C19 — decoding untrusted tickets and auctioneer batch messages never crashes
 
 Headline theorems about the model of sidecar/tlv.go + sidecar/codec.go (`Pool.Dec.deserializeTicket`,
@@ -27,6 +28,14 @@ example : deserializeTicket (repoCfg (2 ^ 48)) [10, 0xff, 0xff, 0xff, 0xff, 0xff
     = .err .toolarge := by rfl
 example : ∃ t, deserializeTicket (repoCfg (2 ^ 48)) [1, 8, 1, 2, 3, 4, 5, 6, 7, 8, 2, 1, 1, 3, 1, 4, 99, 1, 0] = .ok t ∧
     t.state = 4 := ⟨_, by rfl, by rfl⟩
+
+/-- For EVERY text string (up to the allocation limit), `DecodeString` yields a ticket or an error, never
+a panic: every slice expression is in bounds, base58.Decode allocates at most `len(s)` bytes, and the
+payload goes through `C19_ticket_total`.  `H` is any hash function with at least 4 output bytes. -/
+theorem C19_string_total (H : Bytes → Bytes) (hH : ∀ x, 4 ≤ (H x).length) (maxAlloc : Nat) (h : 65535 ≤ maxAlloc)
+    (s : Bytes) (hs : s.length ≤ maxAlloc) : decodeString H (repoCfg maxAlloc) s ≠ .panic :=
+  decodeString_ne_panic H hH (repoCfg maxAlloc) (C19_repo_decoders_capped maxAlloc).1
+    (C19_repo_decoders_capped maxAlloc).2 h s hs
 
 /-- The pinned rule (uncapped `DecodeWithParsedTypes`) DOES panic: a 10-byte input declaring a record of
 2^64-1 bytes for the known type 10 requests that allocation. -/
@@ -149,6 +158,8 @@ theorem C19_pinned_sign_panics (m : OrderMatchSignBegin) :
 a value or an error answered by a reject; never a panic; termination is structural (fuel ≤ len+1). -/
 def C19_full_statement : Prop :=
   (∀ maxAlloc, 65535 ≤ maxAlloc → ∀ b, deserializeTicket (repoCfg maxAlloc) b ≠ .panic) ∧
+  (∀ (H : Bytes → Bytes), (∀ x, 4 ≤ (H x).length) → ∀ maxAlloc, 65535 ≤ maxAlloc → ∀ s : Bytes, s.length ≤ maxAlloc →
+      decodeString H (repoCfg maxAlloc) s ≠ .panic) ∧
   (∀ m, parseRPCBatch repoRpcCfg m ≠ .panic) ∧
   (∀ m e, parseRPCBatch repoRpcCfg m = .err e →
       handlePrepare repoRpcCfg m = .reject m.batchId ∧ acceptorHandlePrepare repoRpcCfg m = .reject m.batchId) ∧
@@ -156,6 +167,6 @@ def C19_full_statement : Prop :=
   (∀ p m, handleSign repoRpcCfg p m ≠ .panic ∧ acceptorHandleSign repoRpcCfg p m ≠ .panic)
 
 theorem C19_full : C19_full_statement :=
-  ⟨C19_ticket_total, C19_parse_total, C19_reject_answerable, C19_sign_total, C19_sign_handlers_total⟩
+  ⟨C19_ticket_total, C19_string_total, C19_parse_total, C19_reject_answerable, C19_sign_total, C19_sign_handlers_total⟩
 
 end Pool.C19
